@@ -48,8 +48,7 @@ def run(ck: Checker, prog: Program, tier: str):
     # a default argument (rule of C15)
     from . import c15
     with ck.borrow(c15, "C10.R1+"):
-        for cname in ("PreProcessingSettings", "HvsrPreProcessingSettings"):
-            ck.guard(c15.check_default_sharing, ck, prog, "C15.R5", prog.cls(cname))
+        ck.guard(c15.check_constructors, ck, prog, [prog.cls(cname) for cname in ("Settings", "PreProcessingSettings", "HvsrPreProcessingSettings", "PsdPreProcessingSettings")])
 
 
 def _orientation_step(ck: Checker, prog: Program):
